@@ -96,3 +96,9 @@ class CfgTask(T):
 
 
 DEPRECATABLE = [OldCfg, OldDLeaf]
+
+
+class Plain(Config):
+    """A plain configuration (donor of pre-tasks in the C14 mutation attempts)."""
+
+    v: Param[int]
